@@ -26,7 +26,7 @@ fn key_kind_lists(depth: usize) -> Vec<Vec<KeyKind>> {
     for _ in 0..depth {
         let mut next = Vec::new();
         for l in &out {
-            for k in [KeyKind::Address, KeyKind::Word] {
+            for k in [KeyKind::Address, KeyKind::Word, KeyKind::Const] {
                 let mut l2: Vec<KeyKind> = l.clone();
                 l2.push(k);
                 next.push(l2);
@@ -262,7 +262,7 @@ pub fn case_from_json(v: &Value) -> Case {
                     m.as_array()
                         .unwrap()
                         .iter()
-                        .map(|s| if s == "Address" { KeyKind::Address } else { KeyKind::Word })
+                        .map(|s| if s == "Address" { KeyKind::Address } else if s == "Const" { KeyKind::Const } else { KeyKind::Word })
                         .collect(),
                     k["address_value"].as_bool().unwrap_or(false),
                 )
@@ -610,7 +610,7 @@ impl Check for C04 {
     fn coverage(&self, tier: Tier, total: &Ctx) -> Map<String, Value> {
         let rule = format!(
             "ground-truth layouts -> solc-idiom bytecode (templates transcribed from the shipped solc output): every single variable of \
-             kind word / 160-bit-masked word / dynamic array / mapping of depth 1-4 over all key-kind vectors {{address, word}}^depth with \
+             kind word / 160-bit-masked word / dynamic array / mapping of depth 1-4 over all key-kind vectors {{address, word, small literal}}^depth with \
              plain or 160-bit-masked value, at 6 slots (0, 1, 5, 77, 2^64+3, 2^200) x 3 access modes (read, write, both; each access \
              in its own dispatcher branch; packed words additionally with one store that writes all fields at once, ORs \
              associated either way) x 4 spellings (mul/shl packing, shr/div unpacking, mask on either side of AND, hash on \
